@@ -421,6 +421,11 @@ class ContentOracle(Oracle):
 
     def __init__(self, want):
         Oracle.__init__(self, want)
+        self.unspec = set()
+
+    def start(self, header):
+        Oracle.start(self, header)
+        self.unspec = set()
 
     def step(self, op, line):
         before = dict(self.prev)
@@ -429,7 +434,45 @@ class ContentOracle(Oracle):
             return why
         out, ticks, regs = split_line(line)
         toks = op.split()
-        if toks[0] == "fuse" or out in ("invalid", "unwound") or out.startswith("fault"):
+        fused = toks[0] == "fuse"
+        if fused:
+            toks = toks[2:]
+        name = toks[0] if toks else ""
+        # After a caught panic or a leaked iter_mut the properties promise safety only
+        # ("the order and even the reported length may be unspecified", C10): the contents
+        # of the registers involved are not judged until something re-creates them.
+        # (drain is different: C16 specifies the queue after a leaked Drain.)
+        skip = fused or out in ("invalid", "unwound") or out.startswith("fault")
+        touched = set()
+        try:
+            if name in ("new", "withcap", "fromvec", "fromiter", "deser"):
+                touched = {int(toks[2])}
+            elif name == "serde":
+                touched = {int(toks[1]), int(toks[3])}
+            elif name in ("append", "clone", "clonefrom", "eq"):
+                touched = {int(toks[1]), int(toks[2])}
+            elif len(toks) > 1:
+                touched = {int(toks[1])}
+        except ValueError:
+            touched = set()
+        if out == "invalid":
+            return None
+        if fused or out == "unwound" or out.startswith("fault"):
+            self.unspec |= touched
+            return None
+        if name == "itermut" and "forget" in toks[3:4]:
+            self.unspec |= touched
+            return None
+        if touched & self.unspec:
+            # an operation that re-creates the register's contents ends the unspecified stretch
+            if name in ("new", "withcap", "fromvec", "fromiter", "deser", "clear", "drain"):
+                self.unspec -= touched if name in ("clear", "drain") else {int(toks[2])}
+            elif name in ("clone", "clonefrom", "serde", "append"):
+                self.unspec |= touched       # a copy / merge of something unspecified
+                return None
+            else:
+                return None
+        if skip:
             return None
         try:
             return self.check(toks, out, before, regs)
